@@ -1338,8 +1338,10 @@ class CParser:
                 dim = self._parse_assignment_expression()
                 self._expect("RBRACKET")
                 return make_array_decl(dim, dim_quals)
-            times_tok = self._accept("TIMES")
-            if times_tok:
+            # '[*]' is a VLA of unspecified size; '[*p]' is an ordinary bound
+            # that starts with a dereference.
+            if self._peek_type() == "TIMES" and self._peek_type(2) == "RBRACKET":
+                times_tok = self._advance()
                 self._expect("RBRACKET")
                 dim = c_ast.ID(times_tok.value, self._tok_coord(times_tok))
                 return make_array_decl(dim, dim_quals)
@@ -1349,8 +1351,8 @@ class CParser:
             self._expect("RBRACKET")
             return make_array_decl(dim, dim_quals)
 
-        times_tok = self._accept("TIMES")
-        if times_tok:
+        if self._peek_type() == "TIMES" and self._peek_type(2) == "RBRACKET":
+            times_tok = self._advance()
             self._expect("RBRACKET")
             dim = c_ast.ID(times_tok.value, self._tok_coord(times_tok))
             return make_array_decl(dim, [])
